@@ -94,3 +94,14 @@ Theorem C07_regenerated_decoupled_pool_is_the_model : forall q tables,
   gen_decoupled_pool q tables = per_objective q tables /\ gen_decoupled_take q (gen_decoupled_pool q tables) = Nat.min q (length (per_objective q tables)).
 Proof. intros q tables. rewrite gen_decoupled_pool_is_model. split; reflexivity. Qed.
 Print Assumptions C07_regenerated_decoupled_pool_is_the_model.
+
+(* the regenerated locate_points (how a chosen point is mapped back to a design): the nearest design of every point, accepted
+   only when every point lies within atol of it *)
+From VOPy Require Problem ExtraRefine2.
+From VOPyGen Require Gen_extra Gen_extra2.
+Theorem C07_located_designs_are_the_nearest_ones_within_tolerance : forall points x atol idx, points <> [] ->
+  Gen_extra2.gen_locate_points points x atol = Some idx ->
+  idx = Gen_extra.gen_closest_indices x points /\
+  forall k, (k < length x)%nat -> Problem.sqdist (nth k x []) (nth (nth k idx O) points []) <= atol * atol.
+Proof. exact ExtraRefine2.gen_locate_points_spec. Qed.
+Print Assumptions C07_located_designs_are_the_nearest_ones_within_tolerance.
